@@ -6,3 +6,70 @@ Theorem C02_getitem : forall (A : Type) (dflt : A) (a : ra A) (idx : index),
   WF A a -> index_ok A (denote A dflt a) idx -> model_obs A a idx = spec_getitem (denote A dflt a) idx.
 Proof. exact getitem_correct. Qed.
 Print Assumptions C02_getitem.
+
+(* ---- supporting theorems the property theorem rests on (generated) ---- *)
+From Coq Require Import ZArith List Bool.
+From NPS Require Import ListAux PySlice NumpySem Scatter BuildIdx XorBroadcast View Index Assign Reduce Scan RaOps Heap Hash HashRun BitArr RLE RLEOps RLE2d DataClass RowsSpec AssignSpec MapSpec Denote Kernels SliceAP ColSlice SelRows GetItem SetItem.
+Import ListNotations.
+Open Scope Z_scope.
+
+Theorem C02_col_kernel_spec :
+  forall (c : Z) (sl : pyslice) (s L : Z),
+       0 <= L ->
+       step_of sl <> 0 ->
+       snd (col_kernel c sl (s, L)) = py_count L sl /\
+       (0 < py_count L sl -> fst (col_kernel c sl (s, L)) = s + py_start L sl * c).
+Proof. exact col_kernel_spec. Qed.
+Print Assumptions C02_col_kernel_spec.
+
+Theorem C02_ap_getslice :
+  forall (s L c : Z) (sl : pyslice),
+       0 <= L ->
+       step_of sl <> 0 ->
+       map (znth 0 (ap s L c)) (py_positions L sl) =
+       ap (s + py_start L sl * c) (py_count L sl) (step_of sl * c).
+Proof. exact ap_getslice. Qed.
+Print Assumptions C02_ap_getslice.
+
+Theorem C02_col_slice_row :
+  forall (A : Type) (dflt : A) (d : list A) (n c : Z) (sl : pyslice) (s L : Z),
+       row_ok n c (s, L) ->
+       step_of sl <> 0 ->
+       let r' := col_kernel c sl (s, L) in
+       row_cells A dflt d (c * step_of sl) r' = slice_list (row_cells A dflt d c (s, L)) sl /\
+       row_ok n (c * step_of sl) r'.
+Proof. exact col_slice_row. Qed.
+Print Assumptions C02_col_slice_row.
+
+Theorem C02_build_indices_correct :
+  forall (rows : list (Z * Z)) (step : Z),
+       Forall (fun r : Z * Z => 0 <= snd r) rows -> build_indices rows step = spec_indices rows step.
+Proof. exact build_indices_correct. Qed.
+Print Assumptions C02_build_indices_correct.
+
+Theorem C02_resolve_ok :
+  forall (A : Type) (dflt : A) (a' : ra A) (idx : index) (t : target),
+       WF A a' ->
+       MaterialiseWF.is_contig (ra_geom a') ->
+       index_ok A (denote A dflt a') idx -> resolve a' idx = Ok t -> target_ok (zlen (ra_data a')) t.
+Proof. exact resolve_ok. Qed.
+Print Assumptions C02_resolve_ok.
+
+Theorem C02_resolve_cells :
+  forall (A : Type) (dflt : A) (a' : ra A) (idx : index),
+       WF A a' ->
+       MaterialiseWF.is_contig (ra_geom a') ->
+       index_ok A (denote A dflt a') idx ->
+       spec_getitem (tagged (denote A dflt a')) idx =
+       match resolve a' idx with
+       | Ok t => Ok (cells_of t)
+       | Refused => Refused
+       end.
+Proof. exact resolve_cells. Qed.
+Print Assumptions C02_resolve_cells.
+
+Theorem C02_sel_rows_In :
+  forall (X : Type) (s : rowsel) (l l' : list X),
+       sel_rows s l = Ok l' -> forall x : X, In x l' -> In x l.
+Proof. exact (@sel_rows_In). Qed.
+Print Assumptions C02_sel_rows_In.
